@@ -1,8 +1,10 @@
 #!/bin/sh
 # usage: ./trymut.sh <patch.diff> <prop> [<prop>...]   -- apply a seeded change to /repo, run checks, revert
 p="$(realpath "$1")"; shift
+if [ -n "$(git -C /repo status --porcelain)" ]; then echo "REFUSING: /repo has uncommitted changes (commit them first)"; exit 4; fi
 git -C /repo apply "$p" || { echo "PATCH DOES NOT APPLY: $p"; exit 3; }
 for prop in "$@"; do
   ./check "$prop" --no-evidence --timeout 6 2>&1 | grep -E "^VIOLATION|^KNOWN|quick:|TOOL-ERROR|error" | cut -c1-220 | head -8
 done
-git -C /repo checkout HEAD -- .
+git -C /repo apply -R "$p"
+git -C /repo status --porcelain
